@@ -8,7 +8,7 @@
    reported ranges are built from, are proved consistent (C08_token_positions_consistent), and so are the date, account and commodity
    ranges of the AST, which are token ranges (C08_ast_ranges_are_token_ranges). *)
 From HL Require Import Lib.Bytes Model.Ast Model.Lexer Model.Parser Model.References Model.Ranges Spec.RangeSpec Spec.FormatSpec Model.Formatter
-  Proofs.RangesProofs Proofs.LexerLines Proofs.LexerColumns Proofs.ParserLines Proofs.ParserErrors Proofs.ParserPositions Proofs.ReportedRanges.
+  Proofs.RangesProofs Proofs.LexerLines Proofs.LexerColumns Proofs.LexerOrder Proofs.ParserLines Proofs.ParserErrors Proofs.ParserPositions Proofs.ReportedRanges.
 Open Scope Z_scope.
 
 Theorem C08_validator_range : forall lines r, range_ok lines r = true ->
@@ -109,6 +109,15 @@ Theorem C08_token_positions_consistent : forall text toks, lex text = Some toks 
   Forall (tok_ok text) toks.
 Proof. exact lex_positions. Qed.
 Print Assumptions C08_token_positions_consistent.
+
+(* ... and for EVERY byte string the tokens follow one another in document order: the first starts at
+   or behind 1:1, every token ends at or behind its start, and the next one starts at or behind that
+   end -- in byte offset, in line, and in column when on the same line.  Two ranges taken from two
+   different tokens therefore never overlap partially. *)
+Theorem C08_tokens_in_document_order : forall text toks, lex text = Some toks ->
+  chain (mkTP 1 1 0) toks.
+Proof. exact lex_document_order. Qed.
+Print Assumptions C08_tokens_in_document_order.
 
 (* ... and for EVERY byte string the ranges that hover, references, rename, definition, symbols and
    the undeclared-name diagnostics are built from -- the date of every transaction, the account of
